@@ -342,10 +342,46 @@ def groupCheckWith (H : Bytes → Bytes)
 def groupCheck (c : CheckCfg) (minfee maxFee : Int) (txs : List Transaction) : Except Err Unit :=
   groupCheckWith Sha256.hash c minfee maxFee txs
 
-/-- `Transactions.CheckSign(height)`. -/
+/-- `Transactions.CheckSign(height)`: members in order, first non-ok outcome wins. -/
+def groupCheckSignO (r : Registry) (validate : Nat → String → Bytes → Bytes → Bytes → VOut)
+    (h : Int) : Nat → List Transaction → VOut
+  | _, [] => .ok
+  | i, t :: ts => match checkSignO r (validate i) h t with
+    | .ok => groupCheckSignO r validate h (i + 1) ts
+    | o => o
+
 def groupCheckSign (r : Registry) (validate : String → Bytes → Bytes → Bytes → VOut)
     (h : Int) (txs : List Transaction) : Bool :=
   txs.all (checkSign r validate h)
+
+/-- `RebuiltGroup`: recompute `next` links back to front and the common header (count untouched). -/
+def rebuildTail (H : Bytes → Bytes) : List Transaction → List Transaction
+  | [] => []
+  | t :: rest =>
+    let rest' := rebuildTail H rest
+    match rest' with
+    | [] => [t]
+    | u :: _ => { t with next := H (encode (stripSigHeader u)) } :: rest'
+
+def rebuiltGroupWith (H : Bytes → Bytes) (txs : List Transaction) : List Transaction :=
+  match rebuildTail H txs with
+  | [] => []
+  | h0 :: tl =>
+    let header := H (encode (stripSigHeader h0))
+    (h0 :: tl).map (fun t => { t with header := header })
+
+def rebuiltGroup (txs : List Transaction) : List Transaction := rebuiltGroupWith Sha256.hash txs
+
+/-- `Transaction.GetTxGroup` up to the decoding of the header (`decode` = `types.Decode` into
+`Transactions`; not modelled — the harness only asks where no decoding happens or on `Tx()` outputs). -/
+inductive GroupOf | single | err (e : Err) | decodeHeader
+  deriving DecidableEq, Repr
+
+def getTxGroupGate (t : Transaction) : GroupOf :=
+  if t.groupCount < 0 ∨ t.groupCount = 1 ∨ t.groupCount > 20 then .err .groupCount
+  else if t.groupCount > 0 then .decodeHeader
+  else if t.next ≠ [] ∨ t.header ≠ [] then .err .nomalTx
+  else .single
 
 /-- backwards pass of `CreateTxGroup` over members 1..n-1 (processed last to first):
 returns the rewritten tail, the accumulated original fees and required fees. -/
